@@ -2,6 +2,7 @@ package drv
 
 import (
 	"context"
+	"errors"
 	"fmt"
 	"math/rand"
 	"os"
@@ -659,6 +660,13 @@ func RunCancelCase(seed int64, o CancelOpts) *HistResult {
 			if res.Inconclusive == "" {
 				res.Inconclusive = "watchdog: graceful shutdown did not return"
 			}
+		}
+	}
+	if !o.Real && res.Inconclusive == "" {
+		// the log is judged below: a stop that was initiated (cancel goroutine spawned) must have had its chance to reach
+		// the runner - the job may have ended before that goroutine got the CPU (found by thorough run 7 under load)
+		if _, err := sys.Quiesce(core.QuiesceOpts{Watchdog: o.Watchdog}); err != nil && !errors.Is(err, core.ErrCancelNotDelivered) {
+			res.Inconclusive = "watchdog: " + err.Error()
 		}
 	}
 	final := sys.Snapshot(-1)
